@@ -218,6 +218,33 @@ def record_slip39(run: Run, rnd: random.Random, thorough: bool, evs: list[dict[s
                     w[rnd.randrange(len(w))] = wl[rnd.randrange(1024)]
                     rec([" ".join(w)] + mn[1:], pw, "one word changed")
                     # a share of another split among them
+    # a share written and read back, no key stretching involved: each field at every value of its range (the sixteen iteration exponents among them)
+    def share_event(**over: Any) -> None:
+        f = {"identifier": 0x1234, "extendable": False, "iteration_exponent": 1, "group_index": 0, "group_threshold": 1, "group_count": 1, "member_index": 0, "member_threshold": 1,
+             "value": bytes(range(16)), **over}
+        m = outcome(lambda: slip39.mnemonic_from_share(slip39.Share(**f)))
+        def failed(x: Any) -> bool:
+            return isinstance(x, str) and (x == "refused" or x.startswith("foreign"))
+
+        if failed(m):
+            return                  # (a share the library does not write: nothing to read back)
+        idx = [wl.index(w) for w in m.split()]
+        sh = outcome(lambda: slip39.share_from_mnemonic(m))
+        back = outcome(lambda: slip39.mnemonic_from_share(sh)) if not failed(sh) else sh
+        evs.append({"op": "slip39share", "indexes": idx, "refused": failed(sh),
+                    "fields": [] if failed(sh) else [sh.identifier, int(sh.extendable), sh.iteration_exponent, sh.group_index, sh.group_threshold, sh.group_count, sh.member_index, sh.member_threshold],
+                    "value": "" if failed(sh) else bytes(sh.value).hex(), "back": [] if failed(back) else [wl.index(w) for w in back.split()], "kind": str(over)})
+
+    for v in range(16):
+        share_event(iteration_exponent=v)
+        share_event(group_index=v, group_count=16, group_threshold=1 + v % 16)
+        share_event(member_index=v, member_threshold=1 + (15 - v))
+        share_event(group_count=v + 1, group_threshold=1 + v // 2)
+    for ident in (0, 1, 0x4000, 0x7FFF):
+        for ext in (False, True):
+            share_event(identifier=ident, extendable=ext)
+    for n_bytes in (16, 18, 32, 64):
+        share_event(value=bytes(range(n_bytes)))
     # the largest thresholds SLIP-0039 defines: sixteen of sixteen members, sixteen of sixteen groups
     for gt, groups in ((1, [(16, 16)]), (16, [(1, 1)] * 16), (2, [(15, 16), (1, 1)])):
         secret = rnd.randbytes(16)
@@ -355,7 +382,7 @@ def check(run: Run) -> None:
                       {"event": e, "expected": str(diag85.get(k))[:400]})
     n85 += len(evs85)
     n_disp = record_dispatch(run, rnd, thorough, evs)
-    keep = ("lang", "in_list", "idx", "slip_idx", "first", "op", "entropy", "indexes", "out", "text", "pass", "norm", "nwords", "base", "normpass", "mnemonics", "refused", "key", "msg", "secret")
+    keep = ("lang", "in_list", "idx", "slip_idx", "first", "op", "entropy", "indexes", "out", "text", "pass", "norm", "nwords", "base", "normpass", "mnemonics", "refused", "key", "msg", "secret", "fields", "value", "back")
     compact = [{k: v for k, v in e.items() if k in keep} for e in evs]
     results, bad, diag = events.validate("C13Trace", compact, batch=300, timeout=6000)
     for r in results:
